@@ -190,7 +190,7 @@ Proof.
   intros (P & O & X & En & A) H. unfold Dead.
   assert (Idl : is_idle s = false) by (unfold is_idle; rewrite P, X; reflexivity).
   assert (Rn : rendering s = false) by (unfold rendering; rewrite P; reflexivity).
-  destruct e; cbn [client_event]; unfold step in H; rewrite ?Idl, ?P, ?X, ?En, ?O in H; cbn [negb andb orb] in H; rewrite ?orb_true_r in H;
+  destruct e; cbn [client_event]; unfold step, serving, idle_ph in H; rewrite ?Idl, ?P, ?X, ?En, ?O in H; cbn [negb andb orb] in H; rewrite ?orb_true_r in H;
     try discriminate H.
   all: try (destruct (lookup b (bars s)) as [r|] eqn:L; [pose proof (all_exited_lookup _ _ _ A L) as Ex; rewrite ?Ex, ?Rn in H|discriminate H]).
   all: cbn [negb andb orb] in H; rewrite ?andb_false_r in H; try discriminate H.
